@@ -589,6 +589,10 @@ def run(ctx):
 
     # ---------------------------------------------------------------- 4. fixed buffers in the network daemons
     r4 = rep.rule('C20.4-fixed-buffers', 'R-GUARD', 'qmtpd/qmqpd buf[1000], qmail.c errstr[256]: every store is under its length guard; the relay suffix length used in the guard is computed from the final value of the suffix')
+    # getln(): every byte of a line is stored into space reserved for it, whatever the line length relative to the input buffer
+    from rules import libtab as _lt
+    for inst_, v_ in sorted(_lt.getln_sites(db, rep, db.program('qmail-smtpd')).items()):
+        r4.check(v_[0], inst_, v_[1], v_[2], v_[3])
     # qmail-local's forward list: the pointer array is allocated from a first pass over the .qmail text and filled by a second (C13 rule 3, concrete files)
     from rules import C13 as _c13
     v_ = _c13.interp_sites(db, rep, db.program('qmail-local'))['forward-list-fits-its-allocation']
